@@ -139,6 +139,10 @@ func bytepad(input []byte, w int) []byte {
 	buf = append(buf, leftEncode(uint64(w))...)
 	buf = append(buf, input...)
 	padlen := w - (len(buf) % w)
+	// no padding is added when the input is already a multiple of w (SP 800-185 2.3.3)
+	if padlen == w {
+		return buf
+	}
 	return append(buf, make([]byte, padlen)...)
 }
 
